@@ -27,10 +27,11 @@ INFO = {
 }
 
 CELL_REP = ([1, 1, 1], (1, 6, 3, 0), (6, 5, 0, 2))   # both: 6, 0; only-x: 1, 3; only-y: 5, 2
+SAME_SET_REP = ([1, 1, 1], (1, 2, 3, 7), (3, 7, 1, 2))  # the same blades, stored in another order
 
 
-def _cells_spec(kind):
-    _, xk, yk = CELL_REP
+def _cells_spec(kind, rep=None):
+    _, xk, yk = rep or CELL_REP
     res = {}
     for k in xk:
         res[k] = Poly.atom(f"a{k}")
@@ -43,10 +44,11 @@ def _cells_spec(kind):
     return res
 
 
-@rule("C04.cells", props=["C04"], min_instances=3, mutants=[
+@rule("C04.cells", props=["C04", "C08"], min_instances=5, mutants=[
     ("sub keeps +y on blades only y stores", ("codegen", "            vals[k] = -v\n    return vals", "            vals[k] = v\n    return vals")),
     ("add overwrites on shared blades", ("codegen", "            vals[k] = vals[k] + v", "            vals[k] = v")),
     ("sub reversed on shared blades", ("codegen", "            vals[k] = vals[k] - v", "            vals[k] = v - vals[k]")),
+    ("positional fast path for equal type numbers", ("codegen", "def codegen_add(x, y):\n    vals = dict(x.items())", "def codegen_add(x, y):\n    if x.type_number == y.type_number:\n        return {k: vx + vy for (k, vx), vy in zip(x.items(), y.values())}\n    vals = dict(x.items())")),
     ("neg is the identity", ("codegen", "    return {k: -v for k, v in x.items()}", "    return {k: v for k, v in x.items()}")),
 ], rewrites=[
     ("vals.get form of sub", ("codegen", "        if k in vals:\n            vals[k] = vals[k] - v\n        else:\n            vals[k] = -v", "        vals[k] = vals[k] - v if k in vals else -v")),
@@ -61,6 +63,9 @@ def cells(ctx):
         c = f"codegen.{cg}#cells"
         got = run_product(ctx, repo, cg, sig, xk, yk, c)
         compare_result(ctx, c, ctx.func(f"codegen.{cg}"), got, _cells_spec(op), op)
+        c = f"codegen.{cg}#same-blades-other-order"
+        got = run_product(ctx, repo, cg, *SAME_SET_REP, c)
+        compare_result(ctx, c, ctx.func(f"codegen.{cg}"), got, _cells_spec(op, SAME_SET_REP), f"{op} of operands holding the same blades in another storage order")
     cg = reg["neg"].codegen
     c = f"codegen.{cg}#cells"
     got = run_product(ctx, repo, cg, sig, xk, yk, c, unary=True)
